@@ -341,6 +341,7 @@ def run_property(prop, tier, groups, meta, replay_fn=None, jobs=None):
         os.makedirs(rep_dir, exist_ok=True)
     printed = set()
     pergroup = {}
+    replay_cache = {}
     ntrace = 0
     for g, o in viol:
         code = 1
@@ -352,10 +353,16 @@ def run_property(prop, tier, groups, meta, replay_fn=None, jobs=None):
                "counterexample_assignments": assigns[-400:]}
         concrete = None
         if replay_fn:
-            try:
-                concrete = replay_fn(g, o, assigns, path)
-            except Exception as e:  # replay machinery failure must not hide the violation
-                concrete = {"reproduced": False, "error": repr(e)}
+            if g.name in replay_cache:
+                concrete = replay_cache[g.name]      # one native replay per group (same program, same family of inputs)
+            elif len(replay_cache) < 4:
+                try:
+                    concrete = replay_fn(g, o, assigns, path)
+                except Exception as e:  # replay machinery failure must not hide the violation
+                    concrete = {"reproduced": False, "error": repr(e)}
+                replay_cache[g.name] = concrete
+            else:
+                concrete = {"reproduced": False, "why": "native replay budget used by earlier violations of this run"}
         rep["native_replay"] = concrete
         with open(path, "w") as f:
             json.dump(rep, f, indent=1)
